@@ -78,6 +78,10 @@ func (ns *NatsEventSender) SendEvent(ctx *fiber.Ctx, meta EventMeta) {
 
 		// Events aren't send in correct order
 		for _, obj := range dObj.Objects {
+			if obj.Key == nil {
+				// an entry without a key: nothing was deleted for it
+				continue
+			}
 			key := *obj.Key
 			schema := createEventSchema(ctx, meta, ConfigurationIdWebhook)
 			schema.Records[0].S3.Object.Key = key
